@@ -251,3 +251,84 @@ Definition step (s : state) (o : op) : state * out * list N := step_body (tick s
 
 Definition run (s : state) (ops : list op) : state :=
   fold_left (fun st o => fst (fst (step st o))) ops s.
+
+(* ------------------------------------------------------------------------------------------
+   The Manager with a real subscriber_nat kernel map (the nil-map Manager above never executes
+   the map-write path).  The map is a hash map of [k_max] entries; the harness may hold entries of
+   its own in it (KPut / KDel: foreign keys) so that an update fails at a chosen point.
+   AllocateNAT as coded: the existing-allocation fast path does not touch the map; otherwise pool
+   entry, block, ports and the subscriber id are determined, then subscriberNAT.Put; when the Put
+   fails the call returns an error BEFORE the allocation is tracked, the block reserved, the
+   count incremented or the record logged -- only the subscriber id stays registered.
+   DeallocateNAT deletes the key (a failing Delete is only logged by zap). *)
+Record kentry := { ke_key : Z; ke_pub : Z; ke_start : Z; ke_end : Z; ke_next : Z; ke_sid : Z;
+                   ke_log2 : Z; ke_rest0 : bool }.   (* ke_rest0: every other field of the value is 0 *)
+
+Record kstate := { k_s : state; k_max : Z; k_map : list kentry }.   (* k_map sorted by key *)
+Definition kinit (c : cfg) (m : logmode) (max : Z) : kstate := {| k_s := init c m; k_max := max; k_map := [] |}.
+
+Fixpoint kmap_mem (k : Z) (l : list kentry) : bool :=
+  match l with [] => false | e :: tl => (ke_key e =? k) || kmap_mem k tl end.
+Fixpoint kmap_ins (e : kentry) (l : list kentry) : list kentry :=
+  match l with
+  | [] => [e]
+  | x :: tl => if ke_key e <? ke_key x then e :: l
+               else if ke_key e =? ke_key x then e :: tl else x :: kmap_ins e tl
+  end.
+Definition kmap_del (k : Z) (l : list kentry) : list kentry := filter (fun e => negb (ke_key e =? k)) l.
+
+(* BPF_ANY update of a hash map: replaces an existing key, else needs a free slot *)
+Definition kmap_put (max : Z) (e : kentry) (l : list kentry) : option (list kentry) :=
+  if kmap_mem (ke_key e) l || (Z.of_nat (length l) <? max) then Some (kmap_ins e l) else None.
+
+Definition kentry_of (c : cfg) (a : alloc) : kentry :=
+  {| ke_key := a_priv a; ke_pub := a_pub a; ke_start := a_start a; ke_end := a_end a; ke_next := a_start a;
+     ke_sid := a_sid a; ke_log2 := Z.log2 (c_pps c) mod 256; ke_rest0 := true |}.
+Definition kentry_foreign (k : Z) : kentry :=
+  {| ke_key := k; ke_pub := 0; ke_start := 0; ke_end := 0; ke_next := 0; ke_sid := 0; ke_log2 := 0; ke_rest0 := true |}.
+
+Inductive kop := KO (o : op) | KPut (k : Z) | KDel (k : Z) | KDump.
+Inductive kout := KOut (r : out) | KMap (l : list kentry).
+
+Definition kstep (ks : kstate) (o : kop) : kstate * kout * list N :=
+  let s := k_s ks in
+  match o with
+  | KO (Alloc priv) =>
+      let '(s', r, mk) := step s (Alloc priv) in
+      match find_alloc priv (s_allocs s), find_alloc priv (s_allocs s') with
+      | None, Some a =>      (* a new allocation: the map write comes before the bookkeeping *)
+          match kmap_put (k_max ks) (kentry_of (s_cfg s) a) (k_map ks) with
+          | Some m' => ({| k_s := s'; k_max := k_max ks; k_map := m' |}, KOut r, mk)
+          | None =>
+              ({| k_s := {| s_cfg := s_cfg s; s_mode := s_mode s; s_pool := s_pool s; s_allocs := s_allocs s;
+                            s_next_sid := s_next_sid s'; s_sids := s_sids s';
+                            s_clock := s_clock s'; s_log := s_log s |};
+                  k_max := k_max ks; k_map := k_map ks |},
+               KOut (mk_out (RErr 3) []), mk)
+          end
+      | _, _ => ({| k_s := s'; k_max := k_max ks; k_map := k_map ks |}, KOut r, mk)
+      end
+  | KO (Dealloc priv) =>
+      let '(s', r, mk) := step s (Dealloc priv) in
+      ({| k_s := s'; k_max := k_max ks;
+          k_map := match find_alloc priv (s_allocs s) with Some _ => kmap_del priv (k_map ks) | None => k_map ks end |},
+       KOut r, mk)
+  | KO o' => let '(s', r, mk) := step s o' in ({| k_s := s'; k_max := k_max ks; k_map := k_map ks |}, KOut r, mk)
+  | KPut k =>
+      match kmap_put (k_max ks) (kentry_foreign k) (k_map ks) with
+      | Some m' => ({| k_s := s; k_max := k_max ks; k_map := m' |}, KOut (mk_out RNone []), [])
+      | None => (ks, KOut (mk_out (RErr 3) []), [])
+      end
+  | KDel k => ({| k_s := s; k_max := k_max ks; k_map := kmap_del k (k_map ks) |}, KOut (mk_out RNone []), [])
+  | KDump => (ks, KMap (k_map ks), [])
+  end.
+
+Definition kentry_eqb (a b : kentry) : bool :=
+  (ke_key a =? ke_key b) && (ke_pub a =? ke_pub b) && (ke_start a =? ke_start b) && (ke_end a =? ke_end b) &&
+  (ke_next a =? ke_next b) && (ke_sid a =? ke_sid b) && (ke_log2 a =? ke_log2 b) && Bool.eqb (ke_rest0 a) (ke_rest0 b).
+Definition kout_eqb (a b : kout) : bool :=
+  match a, b with
+  | KOut x, KOut y => out_eqb x y
+  | KMap x, KMap y => list_eqb kentry_eqb x y
+  | _, _ => false
+  end.
